@@ -15,15 +15,13 @@ fn arbitrary_mid_generator(idx: usize, next_block: u64, action: u64, a: u64, b: 
     let next_alloc = next_block * len;
     let start = next_alloc - len;
     kani::assume(a >= start && a < next_alloc && b >= start && b < next_alloc && a != b);
-    let mut ids = [0u64; MESSAGE_ID_PREALLOC_LEN];
-    ids[idx] = a;
-    ids[idx + 1] = b;
-    MIDGenerator {
-        action_id: action << MESSAGE_ID_SHIFT,
-        next_alloc,
-        curr_index: idx,
-        message_ids: ids,
-    }
+    // from the constructor plus field updates (a new field added to the struct does not break this)
+    let mut g = MIDGenerator::new(action << MESSAGE_ID_SHIFT);
+    g.message_ids[idx] = a;
+    g.message_ids[idx + 1] = b;
+    g.next_alloc = next_alloc;
+    g.curr_index = idx;
+    g
 }
 
 #[kani::proof]
@@ -154,12 +152,9 @@ fn across_boundary(marker: u64, identity: bool) {
     kani::assume(action < MAX_ACTION_ID);
     crate::verif::set_permute_identity(identity);
     let len = MESSAGE_ID_PREALLOC_LEN as u64;
-    let mut g = MIDGenerator {
-        action_id: action << MESSAGE_ID_SHIFT,
-        next_alloc: marker,
-        curr_index: MESSAGE_ID_PREALLOC_LEN,
-        message_ids: [0u64; MESSAGE_ID_PREALLOC_LEN],
-    };
+    let mut g = MIDGenerator::new(action << MESSAGE_ID_SHIFT);
+    g.next_alloc = marker;
+    g.curr_index = MESSAGE_ID_PREALLOC_LEN;
     let t = g.generate();
     crate::verif::set_permute_identity(false);
     let v = u64::from_be_bytes(t.as_ref().try_into().unwrap());
